@@ -205,6 +205,69 @@ pub fn run(ctx: &mut Ctx) {
         pairs.push((m, None, true));
     }
     let mut complete = true;
+    // two repetitions of the SAME named rule in one grammar (shared builder caches): the first is
+    // pinned to a legal count, the second is probed over all counts
+    {
+        let nn = ctx.pick(6usize, 14);
+        let mut specs: Vec<(usize, Option<usize>)> = vec![];
+        for b in 1..=nn {
+            for a in 0..=b {
+                specs.push((a, Some(b)));
+            }
+        }
+        for a in 0..=4 {
+            specs.push((a, None));
+        }
+        let mut k: u64 = 10_000_000;
+        for &(a1, b1) in &specs {
+            for &(a2, b2) in &specs {
+                k += 1;
+                if !ctx.mine(k) {
+                    continue;
+                }
+                if ctx.out_of_time() {
+                    complete = false;
+                    break;
+                }
+                // keep the quick tier affordable: every pair in thorough, a deterministic third in quick
+                if !ctx.thorough && (a1 * 7 + b1.unwrap_or(9) * 3 + a2 * 5 + b2.unwrap_or(4)) % 3 != 0 {
+                    continue;
+                }
+                let q1 = quant(a1, b1, 1);
+                let q2 = quant(a2, b2, 1);
+                let first_count = b1.map_or(a1 + 1, |b| (a1 + b) / 2).max(a1);
+                let total = b2.map(|n| n + 4).unwrap_or(a2 + 7);
+                for (ri, (rule_def, el)) in [("d: /[0-9]/", b"7".to_vec()), ("d: \"ab\"", b"ab".to_vec())].iter().enumerate() {
+                    let mut open = vec![];
+                    for _ in 0..first_count {
+                        open.extend_from_slice(el);
+                    }
+                    open.push(b'-');
+                    let spec = Spec {
+                        name: format!("two-reps-same-rule:d{q1} - d{q2}"),
+                        grammar: GCase::lark("c09", &format!("start: d{q1} \"-\" d{q2} \">\"\n{rule_def}\n")),
+                        open,
+                        close: b">".to_vec(),
+                        elems: (0..total).map(|_| el.clone()).collect(),
+                        m: a2,
+                        n: b2,
+                    };
+                    ctx.rep.inc("grammars");
+                    ctx.rep.inc("two_repetition_grammars");
+                    match probe(&spec, &f, &mut ctx.rep) {
+                        Ok(()) => {
+                            ctx.rep.nontrivial(fnv(spec.name.as_bytes()) ^ ri as u64);
+                        }
+                        Err((kind, detail)) => {
+                            let d = json!({"spec": spec.name, "grammar": spec.grammar.text, "oracle": detail});
+                            let rp = ctx.replay(k);
+                            ctx.rep.violation(&kind, &["lark_two_repeats".to_string()], d, rp);
+                        }
+                    }
+                }
+            }
+        }
+    }
     for (idx, &(m, n, is_json)) in pairs.iter().enumerate() {
         let idx = idx as u64;
         if !ctx.mine(idx) {
